@@ -93,10 +93,11 @@ impl Dialog {
         dialog.local_fromto.tag = Some(random_string());
 
         let entry = DialogEntry::new(Some(request.base_headers.cseq.cseq));
-        dialog.endpoint[dialog_layer]
-            .dialogs
-            .lock()
-            .insert(dialog.key(), entry);
+        DialogEntry::insert(
+            &mut dialog.endpoint[dialog_layer].dialogs.lock(),
+            dialog.key(),
+            entry,
+        );
 
         Ok(dialog)
     }
@@ -177,9 +178,9 @@ impl Dialog {
 
 impl Drop for Dialog {
     fn drop(&mut self) {
-        self.endpoint[self.dialog_layer]
-            .dialogs
-            .lock()
-            .remove(&self.key());
+        DialogEntry::release(
+            &mut self.endpoint[self.dialog_layer].dialogs.lock(),
+            &self.key(),
+        );
     }
 }
